@@ -278,7 +278,7 @@ func validateInputMaps(c Case, origs map[string]*origFile) (string, string) {
 type stats struct {
 	verified, nonASCIIBefore, astralBefore, joined, genNonASCIIBefore, genAstralBefore, afterOddTerminator int
 	kinds                                                                                                  map[string]int
-	namesChecked, inlinedConst, urlComments, segments                                                      int
+	namesChecked, inlinedConst, urlComments, segments, covered                                             int
 }
 
 // judge builds, decodes every emitted map with smref and checks marker segments.
@@ -622,6 +622,30 @@ func judgeOutput(c Case, root, jsPath string, outs map[string]string, originals 
 				st.joined++
 			}
 		}
+		// coverage of marker strings: what a consumer sees when it looks a token up is the segment that governs its
+		// start (the last one at or before it on its line). String and template markers are never folded, moved into
+		// invented code or printed after a separating space, so that segment must name the marker's own origin.
+		segsOfLine := map[int][]smref.Segment{}
+		for _, seg := range m.Segments {
+			segsOfLine[seg.GenLine] = append(segsOfLine[seg.GenLine], seg)
+		}
+		for _, t := range prog.Tokens {
+			key, ok := markerKey(t)
+			if !ok || key[0] != 'L' {
+				continue
+			}
+			line := segsOfLine[t.Line]
+			i := sort.Search(len(line), func(i int) bool { return line[i].GenCol > t.Col16 }) - 1
+			if i < 0 || !line[i].HasSource {
+				return fail(fmt.Sprintf("%s: the marker %s at generated %d:%d is not covered by any mapping", base, clip(t.Raw, 30), t.Line, t.Col16), "a segment at or before the token on its line", "")
+			}
+			g := line[i]
+			ot, found := srcOrig[g.Source].tokAt[pos{g.OrigLine, g.OrigCol}]
+			if okey, _ := markerKey(ot); !found || okey != key {
+				return fail(fmt.Sprintf("%s: looking up the marker %s at generated %d:%d finds the segment at column %d, which maps to %s %d:%d (%q)", base, clip(t.Raw, 30), t.Line, t.Col16, g.GenCol, m.Sources[g.Source], g.OrigLine, g.OrigCol, clip(ot.Raw, 30)), "the origin of "+key, "")
+			}
+			st.covered++
+		}
 		// no segment may point INTO a marker token: a mapping names the token that starts at its generated position,
 		// and nothing starts in the middle of a string, number or identifier (this is what an off-by-one or a
 		// byte-vs-UTF-16 column mistake produces)
@@ -727,7 +751,17 @@ func debugMeasure(c Case, base, code string, prog *jsref.Program, m *smref.Map, 
 		segAt[pos{seg.GenLine, seg.GenCol}] = true
 		t, atTok := tokAt[pos{seg.GenLine, seg.GenCol}]
 		if !atTok && seg.GenCol != 0 {
-			fmt.Printf("C07-DEBUG seg-not-at-token minify=%s\n", c.Minify)
+			gs := smref.Lines(code)
+			off := smref.Offset(code, gs, seg.GenLine, seg.GenCol)
+			ctx := "?"
+			if off >= 0 {
+				lo := off - 12
+				if lo < 0 {
+					lo = 0
+				}
+				ctx = code[lo:off] + "<<HERE>>" + clip(code[off:], 12)
+			}
+			fmt.Printf("C07-DEBUG seg-not-at-token minify=%s own=%v ctx=%q\n", c.Minify, c.Originals != nil, ctx)
 		}
 		if !seg.HasSource {
 			fmt.Printf("C07-DEBUG seg-without-source attoken=%v\n", atTok)
@@ -758,9 +792,40 @@ func debugMeasure(c Case, base, code string, prog *jsref.Program, m *smref.Map, 
 			}
 		}
 	}
+	byLine := map[int][]smref.Segment{}
+	for _, seg := range m.Segments {
+		byLine[seg.GenLine] = append(byLine[seg.GenLine], seg)
+	}
 	for _, t := range prog.Tokens {
 		if k, ok := markerKey(t); ok {
-			fmt.Printf("C07-DEBUG marker-token kind=%s mapped=%v minify=%s own=%v\n", k[:1]+t.Kind.String(), segAt[pos{t.Line, t.Col16}], c.Minify, c.Originals != nil)
+			var g *smref.Segment
+			for i, seg := range byLine[t.Line] {
+				if seg.GenCol <= t.Col16 {
+					g = &byLine[t.Line][i]
+				}
+			}
+			res := "none"
+			if g != nil && g.HasSource {
+				ot, found := srcOrig[g.Source].tokAt[pos{g.OrigLine, g.OrigCol}]
+				ok2, _ := markerKey(ot)
+				res = fmt.Sprintf("%v", found && ok2 == k)
+			} else if g != nil {
+				res = "nosource"
+			}
+			if res != "true" {
+				cj, _ := json.Marshal(c)
+				fmt.Printf("C07-DEBUG lookup-miss-case %s\n", cj)
+			}
+			fmt.Printf("C07-DEBUG lookup kind=%s res=%s exact=%v minify=%s own=%v compose=%v\n", k[:1]+t.Kind.String(), res, g != nil && g.GenCol == t.Col16, c.Minify, c.Originals != nil, c.Compose)
+			lo := t.Start - 15
+			if lo < 0 {
+				lo = 0
+			}
+			ctx := ""
+			if !segAt[pos{t.Line, t.Col16}] {
+				ctx = code[lo:t.Start] + "<<HERE>>" + clip(code[t.Start:], 15)
+			}
+			fmt.Printf("C07-DEBUG marker-token kind=%s mapped=%v minify=%s own=%v compose=%v ctx=%q\n", k[:1]+t.Kind.String(), segAt[pos{t.Line, t.Col16}], c.Minify, c.Originals != nil, c.Compose, ctx)
 		}
 	}
 }
